@@ -310,6 +310,8 @@ class Interp:
             return self.call_method(f.obj, f.name, args, kwargs, node)
         if isinstance(f, TypeV):
             return self.construct(f, args, kwargs, node)
+        if isinstance(f, Sym):
+            return Sym('%s(%s)' % (f.prov, ','.join(_prov(a) for a in args)))
         if not isinstance(f, FuncV):
             raise Undecided('call of non-function %r at line %s' % (f, getattr(node, 'lineno', '?')))
         if f.node is not None:      # lambda
@@ -614,7 +616,10 @@ class Interp:
                     continue
                 for item in self.iterate(v, k.value):
                     kk, vv = self.iterate(item, k.value)
-                    kwargs[kk.v] = vv
+                    if isinstance(kk, Const):
+                        kwargs[kk.v] = vv
+                    else:
+                        kwargs.setdefault('**pairs', []).append((kk, vv))
             else:
                 kwargs[k.arg] = self.eval(k.value, fr)
         return self.call_function(f, args, kwargs, n)
@@ -1016,7 +1021,7 @@ class Interp:
     def p_isinstance(self, a, k, n):
         v, t = a
         types = t.items if isinstance(t, TupleV) else [t]
-        names = [x.name for x in types if isinstance(x, TypeV)]
+        names = [x.name for x in types if isinstance(x, (TypeV, Prim))]
         if len(names) != len(types):
             raise Undecided('isinstance against %r' % (t,))
         if isinstance(v, DocV):
@@ -1074,7 +1079,14 @@ class Interp:
         return ListV(list(reversed(self.iterate(a[0], n))))
 
     def p_sorted(self, a, k, n):
-        return ListV(self.iterate(a[0], n))
+        items = self.iterate(a[0], n)
+        if len(items) <= 1:
+            return ListV(items)
+        tag = ','.join(_prov(x) for x in items)
+        if all(isinstance(x, TupleV) for x in items) and len({len(x.items) for x in items}) == 1:
+            ar = len(items[0].items)
+            return ListV([TupleV([Sym('sorted%d(%s).%d' % (i, tag, j)) for j in range(ar)]) for i in range(len(items))])
+        return ListV([Sym('sorted%d(%s)' % (i, tag)) for i in range(len(items))])
 
     def p_iter(self, a, k, n):
         return a[0]
